@@ -78,9 +78,20 @@ def run(tier):
     if pn.returncode not in (0, 7):
         vp.log("thr_driver_noop rc=%d" % pn.returncode)
     events += nev
-    vp.write_ndjson(tpath, events)
     if pn.returncode not in (0, 7):
         p = pn
+    # the same backends with embedder-provided per-thread records (RLBOX_EMBEDDER_PROVIDES_TLS_STATIC_VARIABLES)
+    for nm, flags, sp in (("thr_driver_noop_etls", ["-DBK_NOOP", "-DTLS_EMBEDDER"], npath),
+                          ("thr_driver_etls", ["-DTLS_EMBEDDER"], spath)):
+        d = vp.build(nm, ["thr_driver.cpp"], flags)
+        te = os.path.join(wd, nm + ".ndjson")
+        pe = vp.run(["timeout", "900", d, sp, te], timeout=1000)
+        events += vp.read_ndjson(te)
+        if pe.returncode not in (0, 7):
+            vp.log("%s rc=%d" % (nm, pe.returncode))
+            if p.returncode in (0, 7):
+                p = pe
+    vp.write_ndjson(tpath, events)
     r = vp.tlc(os.path.join(vp.SPEC, "Trace_Threads.tla"), os.path.join(vp.SPEC, "Trace_Threads.cfg"), workers=1,
                timeout=1100, env={"TRACE": tpath}, xmx="10g")
     res = r.printed("RESULT")
